@@ -357,16 +357,14 @@ type trace struct {
 	decidedAt int
 }
 
-func (t *trace) part(k string, ok bool) {
-	if t != nil {
-		t.parts[fmt.Sprintf("%s:%v", k, ok)]++
+func sfx(k string, ok bool) string {
+	if ok {
+		return k + ":true"
 	}
+	return k + ":false"
 }
-func (t *trace) matcher(k string, ok bool) {
-	if t != nil {
-		t.matchers[fmt.Sprintf("%s:%v", k, ok)]++
-	}
-}
+func (t *trace) part(k string, ok bool)    { t.parts[sfx(k, ok)]++ }
+func (t *trace) matcher(k string, ok bool) { t.matchers[sfx(k, ok)]++ }
 
 func refEval(c chainSpec, q gen.P, ps pathSpec, tr *trace) (bool, pathSpec) {
 	ps.ASPath = append([]segSpec{}, ps.ASPath...)
@@ -794,7 +792,6 @@ func (s *stats) merge(t *trace) {
 	for k, v := range t.acts {
 		s.acts[k] += v
 	}
-	s.ends[t.end]++
 }
 
 type caseResult struct {
@@ -823,11 +820,40 @@ func check(c ccase, st *stats, viol func(clause string, f map[string]string, det
 		proj   string
 	}
 	first := make([]obs, len(c.Probes))
+	var rfPats []gen.P
+	for _, f := range c.Chain.Filters {
+		for _, t := range f.Terms {
+			for _, cd := range t.From {
+				for _, rf := range cd.RFs {
+					rfPats = append(rfPats, rf.Pat)
+				}
+			}
+		}
+	}
+	tr := &trace{parts: map[string]int{}, matchers: map[string]int{}, acts: map[string]int{}}
+	ends := map[string]int{}
+	fam := map[string]int{}
+	defer func() {
+		st.mu.Lock()
+		st.merge(tr)
+		for k, v := range ends {
+			st.ends[k] += v
+		}
+		for k, v := range fam {
+			st.probesFam[k] += v
+		}
+		st.mu.Unlock()
+	}()
 	for i, pr := range c.Probes {
-		tr := &trace{parts: map[string]int{}, matchers: map[string]int{}, acts: map[string]int{}}
+		tr.end, tr.modified, tr.skipped, tr.decidedAt = "", false, false, 0
 		wantRej, wantPath := refEval(c.Chain, pr.Pfx, pr.Path, tr)
 		wantProj := projSpec(wantPath)
-		cross := c.Mixed || (pr.Pfx.V4 != (c.Family == "ipv4"))
+		cross := false // the probe meets a route-filter pattern of the other family somewhere in the chain
+		for _, rp := range rfPats {
+			if rp.V4 != pr.Pfx.V4 {
+				cross = true
+			}
+		}
 		ptype := "static"
 		if pr.Path.BGP {
 			ptype = "bgp"
@@ -841,20 +867,18 @@ func check(c ccase, st *stats, viol func(clause string, f map[string]string, det
 		gotProj := projReal(got)
 		first[i] = obs{gotRej, gotProj}
 		if gotRej != wantRej {
-			viol("decision", vf.F("cross_family", cross, "reference", tr.end, "probe_band", gen.LenBand(pr.Pfx.V4, pr.Pfx.Len)),
+			viol("decision", vf.F("cross_family", cross, "reference", tr.end),
 				fmt.Sprintf("probe %d %s (%s path): chain returned reject=%v, reference %s (reject=%v) decided at term #%d", i, pr.Pfx, ptype, gotRej, tr.end, wantRej, tr.decidedAt))
 		} else if gotProj != wantProj {
 			viol("path", vf.F("cross_family", cross, "path_type", ptype, "rejected", wantRej),
 				fmt.Sprintf("probe %d %s: returned path\n  got  %s\n  want %s", i, pr.Pfx, gotProj, wantProj))
 		}
-		st.mu.Lock()
-		st.merge(tr)
+		ends[tr.end]++
 		if cross {
-			st.probesFam["cross_family"]++
+			fam["cross_family"]++
 		} else {
-			st.probesFam[c.Family]++
+			fam[c.Family]++
 		}
-		st.mu.Unlock()
 		cls := tr.end
 		if tr.modified {
 			cls += "+modified"
@@ -880,7 +904,7 @@ func check(c ccase, st *stats, viol func(clause string, f map[string]string, det
 					continue
 				}
 				if o := (obs{gotRej, projReal(got)}); o != first[i] && first[i].proj != "" {
-					viol("equal-chains-differ", vf.F("mutation", c.MutKind),
+					viol("equal-chains-differ", vf.F("mutated_part", strings.SplitN(c.MutKind, ":", 2)[0], "mutation", c.MutKind),
 						fmt.Sprintf("Chain.Equal is true for two chains that differ in one leaf (%s) but on probe %d %s they return\n  c: reject=%v %s\n  d: reject=%v %s", c.MutKind, i, pr.Pfx, first[i].reject, first[i].proj, o.reject, o.proj))
 					break
 				}
